@@ -1,8 +1,11 @@
 #!/bin/bash
-# dev aid: run the thorough tier of every claimed property in sequence; logs in /var/tmp/thorough/
-cd /verif
+# dev aid: run the thorough tier of every claimed property in sequence, from wherever this copy of /verif lives
+# (so that it can run from a committed snapshot: vp run -- tools/thorough_all.sh); logs in /var/tmp/thorough/
+here=$(cd "$(dirname "$0")/.." && pwd); cd $here
+mkdir -p /var/tmp/thorough /var/tmp/thorough/evidence
 for id in ${PROPS:-C02 C07 C09 C12 C17 C15 C08 C14 C16 C19 C18 C05 C01 C03 C11 C10 C06}; do
   s=$(date +%s)
   ./bin/check $id thorough > /var/tmp/thorough/$id.${VERIF_SEED:-default}.log 2>&1
   echo "$id exit=$? $(( $(date +%s) - s ))s $(grep -c '^KNOWN-FINDING' /var/tmp/thorough/$id.${VERIF_SEED:-default}.log) known $(grep -m1 '^VIOLATION' /var/tmp/thorough/$id.${VERIF_SEED:-default}.log)" >> /var/tmp/thorough/summary.${VERIF_SEED:-default}.txt
+  cp evidence/$id.json /var/tmp/thorough/evidence/$id.json 2>/dev/null
 done
